@@ -22,6 +22,7 @@ verus! {
 //@ include prelude/stdcoll.rs
 //@ include prelude/rc_asref.rs
 //@ include units/C11/error_from.rs
+//@ include units/C15/error_from_string.rs
 
 // falcon::RC (default build, feature "thread_safe" off): the real alias, extracted
 //@ item lib/lib.rs :: type RC#0
